@@ -17,7 +17,7 @@ ASSUMPTIONS = []
 
 BASE_TOKENS = ["a", 0, 3, 12, "0", "3", "é", "~", "/", "-", "x y", "007", "C:\\temp", "\\u0041", "a\\", "\\n"]
 OFFSETS = ["", "+1", "-1", "+2", "-2", "+10", "-10", "+12", "-12"]
-SUFFIXES = ["", "#", "/b", "/~0~1", "/é/0", "/ a", "/a ", "/0/1"]
+SUFFIXES = ["", "#", "/b", "/k%7E0/caf%C3%A9", "/%41/%2F", "/a\\u0041", "/~0~1", "/é/0", "/ a", "/a ", "/0/1"]
 MALFORMED = ["", "a", "#", "/a", "01", "00#", "0+0", "0-0", "0+01", "0+", "0-", "1+#", "0+1x", "0 #", " 0#", "0# ", "1e3", "-1",
              "+1", "0++1", "0+1+1", "٣", "0/a\\u0041", "0/\\x", "99999999999999999999", "0+99999999999999999999", "2/a~", "1#/a"]
 
@@ -67,6 +67,13 @@ def impl(case):
         out["to"] = ["ok", parts_typed(q.parts), str(q)]
     except Exception as e:  # noqa: BLE001
         out["to"] = ["err", exc_name(e)]
+    # the same relative text was applied before under the other decoding options (also to another base)
+    for kw in ({"uri_decode": True}, {"unicode_escape": not case["mode"]}, {"uri_decode": True, "unicode_escape": not case["mode"]}):
+        for b in (base, JSONPointer("/zz/3/y")):
+            try:
+                b.to(case["rel"], **kw)
+            except Exception:  # noqa: BLE001
+                pass
     try:
         q2 = base.to(case["rel"], unicode_escape=case["mode"])
         out["to_via_pointer"] = ["ok", parts_typed(q2.parts), str(q2)]
